@@ -263,8 +263,9 @@ def coq_check_properties(pid):
 
 
 def build_extracted(area, timeout=900):
-    """coq/Extract/Extract_<area>.v writes <area>_model.ml(i) into build/ocaml/<area>; compiled together
-    with ocaml/<area>_driver.ml into build/ocaml/<area>/vmodel. Returns (exe or None, log)."""
+    """coq/Extract/Extract_<area>.v writes <area>_model.ml(i); compiled together with ocaml/<area>_driver.ml into
+    build/ocaml/<area>/vmodel. Built in a private directory and moved into place atomically, so that a concurrent
+    check using the previous binary is never left without one. Returns (exe or None, log)."""
     d = os.path.join(BUILD, "ocaml", area)
     os.makedirs(d, exist_ok=True)
     ex = os.path.join(COQ, "Extract", "Extract_%s.v" % area)
@@ -273,29 +274,35 @@ def build_extracted(area, timeout=900):
     coq_build(targets=["Extract/Extract_%s.vo" % area])   # every .vo the extraction file needs (and a throw-away extraction in coq/)
     with Lock("ocaml-" + area):
         vos = glob.glob(os.path.join(COQ, "**", "*.vo"), recursive=True)
-        newest = max([os.path.getmtime(p) for p in vos + [ex, drv]] or [0])
+        newest = max([os.path.getmtime(p) for p in vos + [ex, drv, os.path.join(VERIF, "ocaml", "bits.ml")]] or [0])
         if os.path.exists(exe) and os.path.getmtime(exe) >= newest:
             return exe, "up to date"
-        for old in glob.glob(os.path.join(d, "*")):
-            if os.path.isfile(old):
-                os.remove(old)
-        rc, out = sh("timeout %d coqc -Q %s OsmtV -w -all %s -o %s/Extract_%s.vo" % (timeout, COQ, ex, d, area), cwd=d, timeout=timeout + 30)
-        if rc != 0:
-            return None, "extraction failed:\n" + out[-3000:]
-        shutil.copy(drv, os.path.join(d, "driver.ml"))
-        shutil.copy(os.path.join(VERIF, "ocaml", "bits.ml"), os.path.join(d, "bits.ml"))
-        mls = sorted(glob.glob(os.path.join(d, "*_model.ml")))
-        if not mls:
-            return None, "extraction produced no *_model.ml\n" + out[-2000:]
-        files = []
-        for m in mls:
-            if os.path.exists(m + "i"):
-                files.append(os.path.basename(m) + "i")
-            files.append(os.path.basename(m))
-        rc, out2 = sh("ocamlfind ocamlopt -O2 -w -a -package str -linkpkg bits.ml %s driver.ml -o vmodel" % " ".join(files), cwd=d, timeout=600)
-        if rc != 0 or not os.path.exists(exe):
-            return None, "ocaml build failed:\n" + out2[-3000:]
-        return exe, out + out2
+        w = os.path.join(d, ".build-%d" % os.getpid())
+        shutil.rmtree(w, ignore_errors=True)
+        os.makedirs(w)
+        try:
+            rc, out = sh("timeout %d coqc -Q %s OsmtV -w -all %s -o %s/Extract_%s.vo" % (timeout, COQ, ex, w, area), cwd=w, timeout=timeout + 30)
+            if rc != 0:
+                return None, "extraction failed:\n" + out[-3000:]
+            shutil.copy(drv, os.path.join(w, "driver.ml"))
+            shutil.copy(os.path.join(VERIF, "ocaml", "bits.ml"), os.path.join(w, "bits.ml"))
+            mls = sorted(glob.glob(os.path.join(w, "*_model.ml")))
+            if not mls:
+                return None, "extraction produced no *_model.ml\n" + out[-2000:]
+            files = []
+            for m in mls:
+                if os.path.exists(m + "i"):
+                    files.append(os.path.basename(m) + "i")
+                files.append(os.path.basename(m))
+            rc, out2 = sh("ocamlfind ocamlopt -O2 -w -a -package str,zarith -linkpkg bits.ml %s driver.ml -o vmodel" % " ".join(files), cwd=w, timeout=600)
+            if rc != 0 or not os.path.exists(os.path.join(w, "vmodel")):
+                return None, "ocaml build failed:\n" + out2[-3000:]
+            for m in mls:
+                shutil.copy(m, d)
+            os.replace(os.path.join(w, "vmodel"), exe)
+            return exe, out + out2
+        finally:
+            shutil.rmtree(w, ignore_errors=True)
 
 
 def extract_directives(area):
